@@ -18,7 +18,7 @@ for name, m in rows:
     if len(summ) > 230:
         summ = summ[:227] + '...'
     files = ', '.join(os.path.basename(f) for f in (m.get('files') or []))
-    out.append('| %s | %s | %s | %s | %s |' % (name, files, summ, ', '.join(m.get('caught_by') or []) or '(none)',
+    out.append('| %s | %s | %s | %s | %s |' % (name, files, summ, (', '.join(m.get('caught_by') or []) or ('not evaluated yet' if m.get('status') else '(none)')),
                                               ', '.join(m.get('missed_by_first_version_of') or []) or '-'))
 open('/verif/seeded/TABLE.md', 'w').write('\n'.join(out) + '\n')
 print(len(rows), 'rows')
